@@ -121,7 +121,17 @@ def c08(run):
         g.fsk_rx(q(run, 100, 1500)); g.fsk_tx(q(run, 100, 1500)); g.lora_rx(q(run, 60, 800)); g.hop(q(run, 40, 400))
         g.exh_setters(q(run, [0x00, 0xff], PRIORS_Q))
         g.beacon(list(range(1, 1050, q(run, 7, 1))))
-    return C.execute(run, gen, monitor=M.mon_aborts)
+    divs = C.execute(run, gen, monitor=M.mon_aborts)
+    # the packet paths again in builds with a small packet buffer (Kconfig SX127X_MAX_PACKET_SIZE):
+    # the real driver under ASan against the model with the same capacity
+    for cap in (16, 64, 255, 256):
+        def gen_small(g, cap=cap):
+            g.tag = 'cap%d' % cap
+            g.fsk_rx(q(run, 40, 600)); g.fsk_tx(q(run, 40, 600)); g.lora_rx(q(run, 40, 500)); g.lora_tx(q(run, 15, 200))
+            g.fsk_fault(q(run, 15, 200)); g.beacon([5, 100, 1000, 3000, 70000]); g.hist(q(run, 40, 600), (5, 50))
+        run.cov['caps'] = run.cov.get('caps', []) + [cap]
+        divs += C.execute(run, gen_small, variants=('cap%d' % cap,), model_args=('--cap', str(cap)), monitor=M.mon_aborts, corpus=False)
+    return divs
 
 def c09(run):
     def gen(g):
